@@ -252,13 +252,15 @@ fn base_document(rng: &mut Rng) -> String {
     d
 }
 
-const SNIPPETS: [&str; 30] = [
+const SNIPPETS: [&str; 34] = [
     "<node id=\"a\" id=\"b\"/>", "<node id=\"&foo;\"/>", "<key id=\"w\" attr.name=\"weight\"/>", "<key for=\"edge\" attr.name=\"weight\"/>",
     "<data key=\"weight\">abc</data>", "<data key=\"weight\"> 1.5 </data>", "<data key=\"weight\"></data>", "<data key=\"weight\"/>",
     "<graph edgedefault=\"undirected\"/>", "<graph edgedefault=\"sideways\">", "<graph>", "<node/>", "<edge source=\"n0\"/>", "<edge target=\"n0\"/>",
     "<edge source=\"zz\" target=\"n0\"/>", "<!-- c -->", "<![CDATA[ x ]]>", "<?pi?>", "</graph>", "</nope>", "<node id=\"n0\" x:id=\"other\"/>",
     "<data key=\"weight\"><b>3</b></data>", "<edge source=\"n0\" target=\"n0\"><data key=\"weight\">7</data></edge>", "&", "<", ">", "\"", "<node id=>",
     "<node id=\"n9\"", "<data key=\"weight\">1e400</data>",
+    "<data key=\"weight\"><node id=\"zz\"/></data>", "<data key=\"weight\"><edge source=\"n0\" target=\"n0\"/></data>",
+    "<edge source=\"n0\" target=\"n0\"><data key=\"weight\"><node id=\"q\"/>5</data></edge>", "<data key=\"weight\"><!-- c -->3</data>",
 ];
 
 pub fn gen_malformed(rng: &mut Rng) -> String {
